@@ -22,7 +22,7 @@
 (*   res = cursors in order, info = TRUE when a rule was applied that the  *)
 (*   documentation leaves open (the case is then informational).           *)
 (***************************************************************************)
-EXTENDS YCompare, YPathSyntax
+EXTENDS YCompare, YPathSyntax, YKwParams
 
 Cur(i) == [id |-> i, virt |-> <<>>, nm |-> ""]
 Virt(ids) == [id |-> 0, virt |-> ids, nm |-> ""]
@@ -256,7 +256,6 @@ TraverseStep(d, c, segs, i) ==
 (* Declarative definitions; `info` marks collections outside the stated    *)
 (* domain (mixed kinds, null attribute values, containers as values, ...). *)
 (***************************************************************************)
-KwParams(v) == IF v = "" THEN <<>> ELSE Split(v, ",")
 ValText(n) == IF n.t = "str" THEN n.v ELSE LitStr(TypedHay(Hay(n.t, n.v)))
 NumKind(n) == n.k = "s" /\ (n.t \in {"int", "float"} \/ (n.t = "str" /\ PyLit(n.v).ty \in {"int", "float"}))
 TextKind(n) == n.k = "s" /\ n.t = "str" /\ PyLit(n.v).ty = "raw"
@@ -284,12 +283,14 @@ KwMembers(d, c, p) ==
   ELSE [j \in 1..Len(es) |-> [m |-> es[j], v |-> IF d[es[j]].k = "s" /\ d[es[j]].t = "null" THEN 0 ELSE es[j]]]
 
 KwStep(d, c, sg) ==
-  LET ps == KwParams(sg.v) np == Len(ps) kind == KindOf(d, c) es == Elems(d, c)
+  LET split == KPSplit(sg.v)          \* the parameter splitter machine (YKwParams)
+      ps == split.params np == Len(ps) kind == KindOf(d, c) es == Elems(d, c)
       p == IF np > 0 THEN ps[1] ELSE ""
-      quoted == HasChar(sg.v, "'") \/ HasChar(sg.v, "\"") \/ HasChar(sg.v, " ") \/ HasChar(sg.v, "\\")
       aoh == kind = "seq" /\ IsAoHNulls(d, es)
   IN
-  IF quoted \/ IsName(c) THEN NoneInfo
+  IF IsName(c) THEN NoneInfo
+  ELSE IF ~split.ok THEN YPErr         \* unbalanced demarcation in the parameters
+  ELSE IF sg.kw = "has_child" /\ np = 1 /\ p = "" THEN NoneInfo
   ELSE IF sg.kw = "has_child" THEN
     (IF np # 1 THEN YPErr
      ELSE IF Ch(p, 1) = "&" THEN NoneInfo                               \* anchored-child variant: not modelled
